@@ -354,7 +354,9 @@ func formatInto(sb *strings.Builder, format string, args []string) (int, error) 
 						b = arg[0]
 					}
 				}
-				sb.WriteByte(b)
+				// Pad the single byte like %s would, to honor any flag or width.
+				fmts = append(fmts, 's')
+				fmt.Fprintf(sb, string(fmts), string([]byte{b}))
 				fmts = nil
 			case '+', '-', ' ':
 				if len(fmts) > 1 {
